@@ -193,6 +193,7 @@ void EGLPNUM_TYPENAME_ILLerror_memory_free (
 		while (ths != NULL)
 		{
 			nxt = ths->next;
+			EGLPNUM_TYPENAME_ILLformat_error_delete (ths);	/* description and line copies */
 			ILL_IFFREE(ths);
 			ths = nxt;
 		}
